@@ -500,17 +500,10 @@ pub fn round_trip_u8(m: &mut VMarket<u8, 1>, long: u8, short: u8, p: Prices<u8>)
     Some((v_in, v_out, funded))
 }
 
-//@ prop=C06 tier=thorough kind=hold
-//@ enc=Deposit::execute, Withdrawal::execute, Withdrawal::output_amounts, LiquidityMarketExt::pool_value, utils::usd_to_market_token_amount, utils::market_token_amount_to_usd, FeeParams::apply_fees, SwapMarketExt::swap_impact_value, SwapMarketMutExt::apply_swap_impact_value_with_cap, BaseMarketMutExt::apply_delta, BaseMarketExt::validate_reserve, BaseMarketExt::validate_max_pnl, LiquidityMarketMut::{mint, burn} (VMarket)
-//@ bound=T=u8 DECIMALS=1 (UNIT 10): liquidity pool, swap impact pool, claimable fee pool, supply (supply > 0 or liquidity empty), both deposit amounts, all six prices, swap fee / receiver factors, swap impact factors (exponent 1.0) symbolic; no open interest, clocks read 0 s, limits at their maximum
-//@ timeout=5400 mem=40
-#[kani::proof]
-#[kani::unwind(1)]
-fn c06_round_trip_whole_u8() {
+fn round_trip_market_u8() -> VMarket<u8, 1> {
     let mut m = base_market_u8();
     m.primary = sym::pool();
     m.swap_impact = sym::pool();
-    m.fee = sym::pool();
     m.total_supply = kani::any();
     m.swap_fee_positive = kani::any();
     m.swap_fee_negative = kani::any();
@@ -518,13 +511,184 @@ fn c06_round_trip_whole_u8() {
     m.swap_impact_positive = kani::any();
     m.swap_impact_negative = kani::any();
     // by design the first depositor into a market without supply owns whatever is in the pool
+    // (e.g. the pool share of earlier withdrawal fees): excluded, see the report
     kani::assume(m.total_supply > 0 || (m.primary.long == 0 && m.primary.short == 0));
+    m
+}
+
+fn round_trip_check(m: &mut VMarket<u8, 1>, long: u8, short: u8) {
     let p = prices(sym::price_u8(), sym::price_u8(), sym::price_u8());
-    let r = round_trip_u8(&mut m, kani::any(), kani::any(), p);
+    let r = round_trip_u8(m, long, short, p);
     if let Some((v_in, v_out, funded)) = r {
         assert!(v_out <= v_in + funded, "C06: deposit then withdraw-all returns more USD value (at max prices) than was deposited (at min prices) plus the positive impact funded by the impact pool");
         kani::cover!(v_out > 0 && v_out < v_in, "lossy round trip");
         kani::cover!(funded > 0, "round trip with funded positive impact");
     }
     kani::cover!(r.is_some(), "round trip completed");
+}
+
+//@ prop=C06 tier=experimental kind=hold
+//@ enc=Deposit::execute, Withdrawal::execute, Withdrawal::output_amounts, LiquidityMarketExt::pool_value, utils::usd_to_market_token_amount, utils::market_token_amount_to_usd, FeeParams::apply_fees, SwapMarketExt::swap_impact_value, SwapMarketMutExt::apply_swap_impact_value_with_cap, BaseMarketMutExt::apply_delta, BaseMarketExt::validate_reserve, BaseMarketExt::validate_max_pnl, LiquidityMarketMut::{mint, burn} (VMarket)
+//@ bound=T=u8 DECIMALS=1 (UNIT 10): LONG-token deposit then withdraw-all: liquidity pool, swap impact pool, supply (supply > 0 or liquidity empty), deposit amount, all six prices, swap fee / receiver factors, swap impact factors (exponent 1.0) symbolic; no open interest, clocks read 0 s, limits at their maximum -- CBMC ran out of memory in this environment (12-17 GB resident when the shared machine had no more to give); never selected. The per-leg harnesses below decide the same clause compositionally.
+//@ timeout=5400 mem=48
+#[kani::proof]
+#[kani::unwind(1)]
+fn c06_round_trip_long_deposit_whole_u8() {
+    let mut m = round_trip_market_u8();
+    round_trip_check(&mut m, kani::any(), 0);
+}
+
+//@ prop=C06 tier=experimental kind=hold
+//@ enc=Deposit::execute, Withdrawal::execute, Withdrawal::output_amounts, LiquidityMarketExt::pool_value, utils::usd_to_market_token_amount, utils::market_token_amount_to_usd, FeeParams::apply_fees, SwapMarketExt::swap_impact_value, SwapMarketMutExt::apply_swap_impact_value_with_cap, BaseMarketMutExt::apply_delta, BaseMarketExt::validate_reserve, BaseMarketExt::validate_max_pnl, LiquidityMarketMut::{mint, burn} (VMarket)
+//@ bound=T=u8 DECIMALS=1 (UNIT 10): SHORT-token deposit then withdraw-all: same symbolic state as the long-token harness -- not run to completion (see the long-token harness); never selected
+//@ timeout=5400 mem=48
+#[kani::proof]
+#[kani::unwind(1)]
+fn c06_round_trip_short_deposit_whole_u8() {
+    let mut m = round_trip_market_u8();
+    round_trip_check(&mut m, 0, kani::any());
+}
+
+//@ prop=C06 tier=experimental kind=hold
+//@ enc=Deposit::execute, Withdrawal::execute (two-sided deposit)
+//@ bound=T=u8: two-sided deposit then withdraw-all, same state -- CBMC ran out of memory (> 17 GB resident under a 40 GB address-space cap) after 26 min; never selected
+#[kani::proof]
+#[kani::unwind(1)]
+fn c06_round_trip_two_sided_whole_u8() {
+    let mut m = round_trip_market_u8();
+    round_trip_check(&mut m, kani::any(), kani::any());
+}
+
+// ------------------------------------------------------------------------------------------------
+// Per-leg obligations (compose to the round-trip clause, and are the "neither leg lowers the value
+// of one market token for the other LPs" clause themselves)
+//
+// In a market without open interest, borrowing state and position-impact pool the pool value is
+// `L * pL + S * pS` at the maximised / minimised prices (that `pool_value` is this composition is
+// what the `c06_pool_value_*` harnesses decide), so the legs are stated with that closed form.
+//
+//   deposit leg  D1: minted * PVmax(m0) <= supply0 * (value_in_at_min_prices + funded_positive_impact)
+//                D2: PVmin(m1) <= PVmax(m0) + value_in_at_min_prices + funded_positive_impact
+//   withdraw leg W1: value_paid_at_max_prices * supply1 <= PVmin(m1) * burned
+//
+// D1 + D2 + W1 and the conversion lemma (`c06_conversion_round_trip_*`: floor(S*v/P) tokens
+// redeemed against (P+v, S+minted) are worth <= v) give: withdrawn value <= deposited value + funded.
+// ------------------------------------------------------------------------------------------------
+
+fn pv_closed(m: &VMarket<u8, 1>, p: &Prices<u8>, maximize: bool) -> i32 {
+    let (pl, ps) = if maximize {
+        (p.long_token_price.max, p.short_token_price.max)
+    } else {
+        (p.long_token_price.min, p.short_token_price.min)
+    };
+    m.primary.long as i32 * pl as i32 + m.primary.short as i32 * ps as i32
+}
+
+fn deposit_leg(long_side: bool) {
+    let mut m = round_trip_market_u8();
+    m.usd_to_amount_divisor = kani::any();
+    let m0 = m;
+    let a: u8 = kani::any();
+    let p = prices(sym::price_u8(), sym::price_u8(), sym::price_u8());
+    let (long, short) = if long_side { (a, 0) } else { (0, a) };
+    let Some(d) = run_deposit_u8(&mut m, long, short, p) else {
+        kani::cover!(true, "deposit rejected");
+        return;
+    };
+    let (pin, pop) = if long_side { (p.long_token_price, p.short_token_price) } else { (p.short_token_price, p.long_token_price) };
+    let fees = if long_side { d.fee_long } else { d.fee_short };
+    let side = |x: &crate::vmarket::VPool<u8>, l: bool| -> i32 { if l { x.long as i32 } else { x.short as i32 } };
+    // bookkeeping, exact
+    let hold = |x: &VMarket<u8, 1>, l: bool| -> i32 { side(&x.primary, l) + side(&x.swap_impact, l) + side(&x.fee, l) };
+    assert!(hold(&m, long_side) == hold(&m0, long_side) + a as i32, "C06: deposit: holdings of the deposited token did not grow by exactly the amount");
+    assert!(hold(&m, !long_side) == hold(&m0, !long_side), "C06: deposit: holdings of the other token changed");
+    assert!(side(&m.fee, long_side) == side(&m0.fee, long_side) + fees.0 as i32 && side(&m.fee, !long_side) == side(&m0.fee, !long_side), "C06: deposit: claimable fee booking");
+    assert!(m.total_supply as i32 == m0.total_supply as i32 + d.minted as i32, "C06: deposit: supply did not grow by the minted amount");
+    assert!(m.same_other_pools(&{ let mut x = m0; x.total_supply = m.total_supply; x }) & m.same_params(&m0), "C06: deposit touched an unrelated pool or parameter");
+    // positive impact funded by the impact pool of the opposite token (paid at its max price)
+    let d_opp = side(&m0.swap_impact, !long_side) - side(&m.swap_impact, !long_side);
+    let d_same = side(&m0.swap_impact, long_side) - side(&m.swap_impact, long_side);
+    assert!(d_opp >= 0 && d_same <= 0, "C06: deposit: impact pools moved in the wrong direction");
+    assert!(d_opp == 0 || d_same == 0);
+    let funded = d_opp * pop.max as i32;
+    let v_in = a as i32 * pin.min as i32;
+    let (pv0, s0) = (pv_closed(&m0, &p, true), m0.total_supply as i32);
+    if s0 > 0 {
+        // D1: the depositor's share is bought at no less than the current value per token
+        assert!(d.minted as i32 * pv0 <= s0 * (v_in + funded), "C06: deposit mints more market tokens than the deposited value buys at the maximised pool value (dilutes the other LPs)");
+    } else {
+        // first deposit: one market token per `divisor` of net value at the min price
+        let net = a as i32 - fees.0 as i32 - fees.1 as i32 + d_same; // d_same <= 0: negative impact paid into the pool
+        let div = m0.usd_to_amount_divisor as i32;
+        assert!(div > 0 && d.minted as i32 * div <= net * pin.min as i32 && (d.minted as i32 + 1) * div > net * pin.min as i32, "C06: first deposit into an empty pool is not priced at one USD (divisor) per market token");
+        assert!(d_opp == 0, "C06: positive impact paid on a first deposit");
+    }
+    // D2: the minimised pool value afterwards is covered by the maximised one before plus what came in
+    assert!(pv_closed(&m, &p, false) <= pv0 + v_in + funded, "C06: pool value after the deposit exceeds pool value before + deposited value + funded impact");
+    kani::cover!(s0 > 0 && d.minted > 1 && fees.0 > 0, "deposit with fees into a live pool");
+    kani::cover!(s0 > 0 && d.minted > 0 && d_opp > 0, "deposit with funded positive impact");
+    kani::cover!(s0 > 0 && d.minted > 0 && d_same < 0, "deposit with negative impact");
+    kani::cover!(s0 == 0 && d.minted > 0, "first deposit");
+}
+
+//@ prop=C06 tier=thorough kind=hold
+//@ enc=Deposit::try_new, Deposit::execute, Deposit::price_impact, Deposit::execute_deposit, Deposit::charge_fees, LiquidityMarketExt::pool_value, LiquidityMarketExt::validate_pool_value_for_deposit, BaseMarketExt::validate_max_pnl, BaseMarketExt::validate_pool_amount, BaseMarketMutExt::apply_delta, SwapMarketExt::swap_impact_value, SwapMarketMutExt::apply_swap_impact_value_with_cap, utils::usd_to_market_token_amount, FeeParams::apply_fees
+//@ bound=T=u8 DECIMALS=1 (UNIT 10): one LONG-token Deposit::execute: liquidity pool, swap impact pool, supply (supply > 0 or liquidity empty), divisor, amount, all six prices, swap fee / receiver factors, swap impact factors (exponent 1.0) symbolic; no open interest, no borrowing state, no position impact pool, limits at their maximum
+//@ timeout=5400 mem=36
+#[kani::proof]
+#[kani::unwind(1)]
+fn c06_deposit_leg_long_whole_u8() {
+    deposit_leg(true);
+}
+
+//@ prop=C06 tier=thorough kind=hold
+//@ enc=Deposit::try_new, Deposit::execute, Deposit::price_impact, Deposit::execute_deposit, Deposit::charge_fees, LiquidityMarketExt::pool_value, LiquidityMarketExt::validate_pool_value_for_deposit, BaseMarketExt::validate_max_pnl, BaseMarketExt::validate_pool_amount, BaseMarketMutExt::apply_delta, SwapMarketExt::swap_impact_value, SwapMarketMutExt::apply_swap_impact_value_with_cap, utils::usd_to_market_token_amount, FeeParams::apply_fees
+//@ bound=T=u8 DECIMALS=1 (UNIT 10): one SHORT-token Deposit::execute, same symbolic state as the long-token harness
+//@ timeout=5400 mem=36
+#[kani::proof]
+#[kani::unwind(1)]
+fn c06_deposit_leg_short_whole_u8() {
+    deposit_leg(false);
+}
+
+//@ prop=C06 tier=thorough kind=hold
+//@ enc=Withdrawal::try_new, Withdrawal::execute, Withdrawal::output_amounts, Withdrawal::charge_fees, LiquidityMarketExt::pool_value, utils::market_token_amount_to_usd, FeeParams::apply_fees, BaseMarketMutExt::apply_delta, BaseMarketExt::validate_reserve, BaseMarketExt::validate_max_pnl, LiquidityMarketMut::burn (VMarket)
+//@ bound=T=u8 DECIMALS=1 (UNIT 10): one Withdrawal::execute: liquidity pool, claimable fee pool, supply, burned amount, all six prices, swap fee / receiver factors symbolic; no open interest, no borrowing state, no position impact pool
+//@ timeout=5400 mem=36
+#[kani::proof]
+#[kani::unwind(1)]
+fn c06_withdraw_leg_whole_u8() {
+    let mut m = base_market_u8();
+    m.primary = sym::pool();
+    m.fee = sym::pool();
+    m.total_supply = kani::any();
+    m.swap_fee_positive = kani::any();
+    m.swap_fee_negative = kani::any();
+    m.swap_fee_receiver = kani::any();
+    let m1 = m;
+    let a: u8 = kani::any();
+    let p = prices(sym::price_u8(), sym::price_u8(), sym::price_u8());
+    let Some(w) = run_withdraw_u8(&mut m, a, p) else {
+        kani::cover!(true, "withdrawal rejected");
+        return;
+    };
+    let (plx, psx) = (p.long_token_price.max as i32, p.short_token_price.max as i32);
+    // bookkeeping, exact: what leaves the liquidity pool is output + receiver fee; the pool share of the fee stays
+    assert!(m.primary.long as i32 + w.long_out as i32 + w.fee_long.0 as i32 == m1.primary.long as i32, "C06: withdraw: liquidity pool (long) delta");
+    assert!(m.primary.short as i32 + w.short_out as i32 + w.fee_short.0 as i32 == m1.primary.short as i32, "C06: withdraw: liquidity pool (short) delta");
+    assert!(m.fee.long as i32 == m1.fee.long as i32 + w.fee_long.0 as i32 && m.fee.short as i32 == m1.fee.short as i32 + w.fee_short.0 as i32, "C06: withdraw: claimable fee booking");
+    assert!(m.total_supply as i32 + a as i32 == m1.total_supply as i32, "C06: withdraw: supply did not shrink by the burned amount");
+    assert!(m.swap_impact.same(&m1.swap_impact) & m.same_other_pools(&{ let mut x = m1; x.total_supply = m.total_supply; x }) & m.same_params(&m1), "C06: withdrawal touched an unrelated pool or parameter");
+    // W1: value leaving the LPs' pool (outputs and receiver fees, at max prices) <= burned share of the minimised pool value
+    let paid = (w.long_out as i32 + w.fee_long.0 as i32) * plx + (w.short_out as i32 + w.fee_short.0 as i32) * psx;
+    let (pv1, s1) = (pv_closed(&m1, &p, false), m1.total_supply as i32);
+    assert!(paid * s1 <= pv1 * a as i32, "C06: withdrawal pays more than the burned share of the minimised pool value (lowers the value per market token of the remaining LPs)");
+    // exact amounts before fees
+    let mtv = pv1 * a as i32 / s1;
+    let (lv, sv) = (m1.primary.long as i32 * plx, m1.primary.short as i32 * psx);
+    let gross_long = w.long_out as i32 + w.fee_long.0 as i32 + w.fee_long.1 as i32;
+    let gross_short = w.short_out as i32 + w.fee_short.0 as i32 + w.fee_short.1 as i32;
+    assert!(gross_long == (mtv * lv / (lv + sv)) / plx && gross_short == (mtv * sv / (lv + sv)) / psx, "C06: withdrawal amounts differ from floor(floor(mtv * side_value / total_value) / max price)");
+    kani::cover!(w.long_out > 0 && w.short_out > 0 && w.fee_long.0 > 0, "two-token withdrawal with fees");
+    kani::cover!(m.total_supply == 0 && w.long_out > 0, "withdraw everything");
 }
